@@ -3,7 +3,7 @@ use std::collections::BTreeSet;
 
 use crate::{
     DbIndex, DiagnosticCode, InferFailReason, InferGuard, LuaInferCache, LuaSemanticDeclId,
-    LuaType, RenderLevel, SemanticDeclLevel, SemanticModel,
+    LuaType, LuaTypeDeclId, RenderLevel, SemanticDeclLevel, SemanticModel,
     diagnostic::checker::humanize_lint_type, get_real_type, humanize_type,
     semantic::infer_call_expr_func,
 };
@@ -141,6 +141,45 @@ fn infer_call_target_type(
 }
 
 fn has_non_callable_member(db: &DbIndex, typ: &LuaType) -> bool {
+    has_non_callable_member_inner(db, typ, &mut Vec::new())
+}
+
+/// `expanding`: the aliases being looked through; an alias that mentions itself
+/// (`---@alias R R & R`) is looked through once.
+fn has_non_callable_member_inner(
+    db: &DbIndex,
+    typ: &LuaType,
+    expanding: &mut Vec<LuaTypeDeclId>,
+) -> bool {
+    let alias_id = match typ {
+        LuaType::Ref(id)
+            if db
+                .get_type_index()
+                .get_type_decl(id)
+                .is_some_and(|decl| decl.is_alias()) =>
+        {
+            Some(id.clone())
+        }
+        _ => None,
+    };
+    if let Some(id) = &alias_id {
+        if expanding.contains(id) {
+            return false;
+        }
+        expanding.push(id.clone());
+    }
+    let result = has_non_callable_member_real(db, typ, expanding);
+    if alias_id.is_some() {
+        expanding.pop();
+    }
+    result
+}
+
+fn has_non_callable_member_real(
+    db: &DbIndex,
+    typ: &LuaType,
+    expanding: &mut Vec<LuaTypeDeclId>,
+) -> bool {
     let typ = get_real_type(db, typ).unwrap_or(typ);
     if typ.is_function() || typ.is_call() {
         return false;
@@ -152,22 +191,22 @@ fn has_non_callable_member(db: &DbIndex, typ: &LuaType) -> bool {
         }
         LuaType::TplRef(tpl) => tpl
             .get_constraint()
-            .is_some_and(|constraint| has_non_callable_member(db, constraint)),
+            .is_some_and(|constraint| has_non_callable_member_inner(db, constraint, expanding)),
         LuaType::StrTplRef(str_tpl) => str_tpl
             .get_constraint()
-            .is_some_and(|constraint| has_non_callable_member(db, constraint)),
+            .is_some_and(|constraint| has_non_callable_member_inner(db, constraint, expanding)),
         LuaType::Union(union) => union
             .into_vec()
             .iter()
-            .any(|t| has_non_callable_member(db, t)),
+            .any(|t| has_non_callable_member_inner(db, t, expanding)),
         LuaType::Intersection(intersection) => intersection
             .get_types()
             .iter()
-            .all(|t| has_non_callable_member(db, t)),
+            .all(|t| has_non_callable_member_inner(db, t, expanding)),
         LuaType::MultiLineUnion(union) => union
             .get_unions()
             .iter()
-            .any(|(t, _)| has_non_callable_member(db, t)),
+            .any(|(t, _)| has_non_callable_member_inner(db, t, expanding)),
         _ => true,
     }
 }
